@@ -65,8 +65,19 @@ Query == /\ Ev.e = "query"
             IF m = {} /\ g = {} THEN TRUE ELSE PrintT(<<"Q", T.id, l, Ev.a, SetToSeq(m), SetToSeq(g)>>)
          /\ UNCHANGED <<present, pos, cellmap, cellOf>>
 
+\* the use of the queries in hydrogen-bond detection: for a donor / acceptor atom a of an optimisable group, "want" are the
+\* eligible partners closer than 4.3 A (brute force over the structure, measured by the harness), "got" the partners of
+\* the potential bonds the optimiser recorded for a.  A wanted partner is lost when both atoms are filed where they are
+\* (so that a query for a returns it: 4.3 A is below the cell size) and yet no potential bond was recorded.  Partners
+\* lost because one of the two is filed in a stale cell belong to the Stale / Query clauses.
+FiledRight(a) == a \in present /\ cellOf[a] # None /\ cellOf[a] = C!Key(pos[a])
+Detect == /\ Ev.e = "detect"
+          /\ LET lost == {b \in ToSet(Ev.want) \ ToSet(Ev.got) : Size * 1000 > 4300 /\ FiledRight(Ev.a) /\ FiledRight(b)} IN
+             IF lost = {} THEN TRUE ELSE PrintT(<<"D", T.id, l, Ev.a, SetToSeq(lost)>>)
+          /\ UNCHANGED <<present, pos, cellmap, cellOf>>
+
 TNext == /\ l <= Len(T.ev) /\ l' = l + 1 /\ UNCHANGED <<tid, hist, pos0>>
-         /\ (New \/ Del \/ Set \/ Reset \/ Add \/ Rem \/ Query)
+         /\ (New \/ Del \/ Set \/ Reset \/ Add \/ Rem \/ Query \/ Detect)
 TSpec == TInit /\ [][TNext]_<<pos, cellmap, cellOf, hist, pos0, tid, l, present>>
 
 \* at the end of the life of the Cells object (its last operation): every atom of the structure that is filed is filed
